@@ -100,6 +100,8 @@ func directivesSeq2(s string) iter.Seq2[string, string] {
 				// value = textproto.TrimString(ParseQuotedString(value))
 				value = textproto.TrimString(value)
 			}
+			// RFC 9111 §5.2: directive names are case-insensitive.
+			key = strings.ToLower(textproto.TrimString(key))
 			if len(key) == 0 {
 				continue
 			}
@@ -123,7 +125,9 @@ func hasToken(d map[string]string, token string) bool {
 
 func getDurationDirective(d map[string]string, token string) (dur time.Duration, valid bool) {
 	if v, ok := d[token]; ok {
-		return RawDeltaSeconds(v).Value()
+		// RFC 9111 §5.2: arguments may use either the token or the
+		// quoted-string form; both spellings mean the same.
+		return RawDeltaSeconds(ParseQuotedString(v)).Value()
 	}
 	return
 }
@@ -137,7 +141,8 @@ func getDurationDirective(d map[string]string, token string) (dur time.Duration,
 type CCRequestDirectives map[string]string
 
 func ParseCCRequestDirectives(header http.Header) CCRequestDirectives {
-	value := header.Get("Cache-Control")
+	// RFC 9110 §5.3: several field lines are equivalent to one comma-separated list.
+	value := strings.Join(header.Values("Cache-Control"), ",")
 	if value == "" {
 		return nil
 	}
@@ -152,7 +157,7 @@ func (d CCRequestDirectives) MaxAge() (dur time.Duration, valid bool) {
 // MaxStale parses the "max-stale" request directive as defined in RFC 9111, §5.2.1.2.
 func (d CCRequestDirectives) MaxStale() (dur RawDeltaSeconds, valid bool) {
 	if v, ok := d["max-stale"]; ok {
-		return RawDeltaSeconds(v), true
+		return RawDeltaSeconds(ParseQuotedString(v)), true
 	}
 	return
 }
@@ -196,7 +201,8 @@ func (d CCRequestDirectives) StaleIfError() (dur time.Duration, valid bool) {
 type CCResponseDirectives map[string]string
 
 func ParseCCResponseDirectives(header http.Header) CCResponseDirectives {
-	value := header.Get("Cache-Control")
+	// RFC 9110 §5.3: several field lines are equivalent to one comma-separated list.
+	value := strings.Join(header.Values("Cache-Control"), ",")
 	if value == "" {
 		return nil
 	}
